@@ -142,6 +142,19 @@ CHECKS = {
         design_ref='§7 C17',
         note=NOTE_COMMON + 'An empty text delivered as the library\'s blank is accepted as equal to ""; a ~ not followed by ? * ~, SEARCH inside an empty text and non-text first arguments are out of scope.',
         technique='TLA+ text oracle with TLC-checked substring algebra, TLC-enumerated rows replayed, trace validation'),
+    'C11': dict(
+        category='model_checking',
+        text=('TLC checks the statement\'s algebra on the aggregate oracle (XlAggregates: ordered bag of the numeric cells of every argument, in quarter '
+              'units): SplitInvariance (SUM(X,Y)=SUM(X)+SUM(Y) for every split of the block, also for count/min/max), OncePerMention, '
+              'NonNumericIgnored, ScalarCounts, CountBlankExact, MinLeMax, AndOrFold, for every assignment of 9 content kinds to a 2x2 block; it '
+              'enumerates every assignment of kinds to an R x 2 block with the folds of 13 formula shapes (row, column, rectangle, whole column(s), '
+              'several areas, same area twice, other sheet, scalars, single cells, overlap) exported by the specification itself. Binding: '
+              'SUM/AVERAGE/MIN/MAX/COUNT/COUNTBLANK of every shape are evaluated by the real pipeline with block contents as overrides and compared '
+              'with the folds (plus SUM(X,Y) vs SUM(X)+SUM(Y) inside the same workbook); AND/OR over all operand vectors as cells and literals; samples '
+              'through the public file path; random 4x3 blocks with random rectangles are judged by TLC from recorded events (Trace_C11).'),
+        design_ref='§7 C11',
+        note=NOTE_COMMON + 'Dates inside areas, folds over no numeric cell (AVERAGE/MIN/MAX), text/blank operands of AND/OR are out of scope (the statement or Excel leave them open).',
+        technique='TLA+ aggregate oracle with TLC-checked algebra, TLC-enumerated content assignments x shapes replayed, trace validation'),
 }
 
 NOT_APPLICABLE = {}
